@@ -18,7 +18,7 @@ SKIP = {"abs", "square", "np_sqrt", "np_cbrt", "np_power", "neg", "divide", "sca
 _cache = {}
 
 
-def sym_vector(prefix, sig, flavor):
+def sym_vector(prefix, sig, flavor, by_keywords=False):
     import sympy
     import vector
     from vector.backends import sympy as vs
@@ -26,6 +26,12 @@ def sym_vector(prefix, sig, flavor):
     names = coords.field_names(sig)
     syms = [sympy.Symbol(f"{prefix}_{n}", real=True) for n in names]
     d = dict(zip(names, syms))
+    if by_keywords:
+        # the public keyword constructors (momentum spellings for momentum vectors)
+        n = len(sig) + 1
+        cls = getattr(vector, ("MomentumSympy" if flavor == "momentum" else "VectorSympy") + f"{n}D")
+        kw = {(coords.MOM_NAMES[k] if flavor == "momentum" else k): v for k, v in d.items()}
+        return cls(**kw), syms
     az = vs.AzimuthalSympyXY(d["x"], d["y"]) if sig[0] == "xy" else vs.AzimuthalSympyRhoPhi(d["rho"], d["phi"])
     n = len(sig) + 1
     cls = getattr(vector, ("MomentumSympy" if flavor == "momentum" else "VectorSympy") + f"{n}D")
@@ -105,8 +111,9 @@ def compiled(op, sa, sb, flavor, p):
     key = (op, sa, sb, flavor, fixed)
     if key in _cache:
         return _cache[key]
-    A, sya = sym_vector("a", sa, "momentum" if op in algebra.MOMENTUM_ONLY else flavor)
-    B, syb = (sym_vector("b", sb, "generic") if sb else (None, []))
+    kwctor = (hash(json.dumps([op, sa, sb])) % 2) == 0
+    A, sya = sym_vector("a", sa, "momentum" if op in algebra.MOMENTUM_ONLY else flavor, by_keywords=kwctor)
+    B, syb = (sym_vector("b", sb, "generic", by_keywords=not kwctor) if sb else (None, []))
     ps = [sympy.Symbol(f"p{k}", real=True) for k in range(nparams(op, p))]
     call_ps = ps
     if op in CONCRETE_PARAMS:
